@@ -63,3 +63,15 @@ Definition w_ok := Nd T_Module [Nd T_LIST [fundef T_FunctionDef
     Nd T_Expr [call1f 9 (name 2)]]]; Nd T_LIST []].
 Example accepted_sample : check w_ok (Opt.opt w_ok) = true /\ tree_eqb w_ok (Opt.opt w_ok) = false.
 Proof. split; vm_compute; reflexivity. Qed.
+
+(** try: g(x)  finally: <constant>     (no handlers): every statement of the finally clause is
+    eliminated.  A result with an empty clause is not a statement Python accepts ([wf]); the pass
+    (since the repair of F-15e) leaves `finally: pass`, which is. *)
+Definition w_try_with (fin : list tree) : tree :=
+  Nd T_Module [Nd T_LIST [Nd T_Try [Nd T_LIST [Nd T_Expr [call1f 9 (name 2)]]; Nd T_LIST []; Nd T_LIST []; Nd T_LIST fin]];
+               Nd T_LIST []].
+Definition w_try := w_try_with [Nd T_Expr [lit 3]].
+Theorem try_without_finally_rejected :
+  accept w_try (w_try_with []) = false /\ accept w_try (w_try_with [Nd T_Pass []]) = true /\
+  Opt.opt w_try = w_try_with [Nd T_Pass []].
+Proof. repeat split; vm_compute; reflexivity. Qed.
